@@ -56,15 +56,20 @@ package tree
 //
 // A word is true / false (booleans), a decimal literal, optionally negative (a number), or a string.
 //
-//@ pure func isDecimalLiteral(w string) bool { return matches(w, "-?[0-9]+(\\.[0-9]+)?") }
+//@ pure func decimalLiteral(w string) bool { return matches(w, "-?[0-9]+(\\.[0-9]+)?") }
+//
+// The scanner that recognises decimal literals is a loop over the runes of the word against a regular language:
+// trusted, with the exhaustive bounded stand-in B-word (/verif/bounded).
+//@ func isDecimalLiteral(text string) (res bool)
+//@   trusted
+//@   ensures res == decimalLiteral(text)
 //
 //@ func valueFromCommandText(commandText string) (v *variable.Value)
 //@   requires "non-empty-word": commandText != ""
-//@   carveout "D19": parseFloatOK(commandText) && commandText[0] != '+' ==> isDecimalLiteral(commandText)
 //@   ensures "word-table": wfVal(v) && fresh(v) &&
 //@           (commandText == "true" ? absval(v) == VBool(true)
 //@          : commandText == "false" ? absval(v) == VBool(false)
-//@          : isDecimalLiteral(commandText) ? absval(v) == VNum(parseFloatVal(commandText))
+//@          : decimalLiteral(commandText) ? absval(v) == VNum(parseFloatVal(commandText))
 //@          : absval(v) == VStr(commandText))
 //
 // Command text is cut at single spaces only, and every non-empty piece becomes exactly one element, in order (C17):
